@@ -29,6 +29,8 @@ CHECKS = {
          "refproto (written from docs/protocol.md) is the trusted base; simnet delivery events are ground truth for 'received'"),
  "C14": ("exploration", "§3 C14", "Wire-tap invariants on every datagram/segment of runs sweeping MTU x padding x low-entropy mode x write sizes x fault profiles (retransmissions, acks, control segments): datagram <= sender MTU, documented length limits.",
          "refproto is the trusted base"),
+ "C15": ("exploration", "§3 C15", "Independent actor goroutines on both ends of 1-4 sessions issue Write/Read/SetDeadline/Close concurrently, with client Stop, server Stop, TCP reset / black-hole and UDP black-hole at seeded instants; oracles over the recorded call history (bounded return of Close/Stop and of every call blocked on an affected connection, deadlines bound every call until changed, no timeout without a user deadline), a goroutine-profile leak check 5 virtual minutes after both ends stopped, the virtual-time cap as deadlock detector, and a race-detector pass over a sixth of the runs.",
+         "single-P schedules: races are found by happens-before analysis, not true parallelism; silent TCP failures are left to the (unmodelled) kernel"),
  "C16": ("exploration", "§3 C16", "Configuration checks (Validate/NewConfig/Effective/Encode-Decode) on every generated pattern plus wire-tap checks of padding maxima, nonce prefix, TCP fragmentation and low-entropy rules against Effective() in whole-system runs.",
          "implicit values are held to Config.Effective(); refproto is the trusted base"),
 }
